@@ -9,8 +9,10 @@
    malloc'd name buffer E->field (a new one on every rename).  A pointer is
    dangling iff no live entry carries that identity.
 
-   [cfg] switches individual repairs on; [pinned] is the code as it stands in
-   /repo, [fixed] has every repair of proposed_fixes/C15-*.diff applied.
+   [cfg] switches the repairs that are proposed but not yet applied
+   (proposed_fixes/C15-11, C15-12); [pinned] is the code as it stands in /repo
+   (which contains the repairs C15-1 .. C15-10 and the depth bound of
+   _GD_ResolveAlias).
    Anchors: src/common.c (find/insert), add.c (_GD_Add, _GD_AddAlias),
    parse.c (_GD_ParseFieldSpec insert path, _GD_ResolveAlias,
    _GD_UpdateAliases), del.c (_GD_Delete), name.c (_GD_Rename,
@@ -24,18 +26,11 @@ Open Scope N_scope.
 
 (* ------------------------------------------------------------------ cfg *)
 Record cfg := mkCfg {
-  fx_delref   : bool;  (* del.c: clear D->reference_field when no RAW replacement exists *)
-  fx_hide     : bool;  (* entry.c: gd_hide/gd_unhide invalidate the container's lists *)
-  fx_affix    : bool;  (* fragment.c: _GD_UpdateAffixes invalidates all lists *)
-  fx_delmeta  : bool;  (* del.c: meta removal loop must not skip the element after a removal *)
-  fx_rencache : bool;  (* name.c: rename invalidates the lists that hold the freed names *)
-  fx_renref   : bool;  (* name.c: rename updates fragment ref_name *)
-  fx_spec     : bool;  (* parse.c/add.c: gd_[m]add_spec invalidates the container's lists *)
-  fx_parent   : bool;  (* add.c: _GD_Add sets E->e->p.parent *)
-  fx_malias   : bool   (* add.c: _GD_AddAlias links a meta alias to its parent *)
+  fx_derefclear : bool;  (* proposed C15-11: del.c clears derived pointers also on the GD_DEL_DEREF path *)
+  fx_rendup     : bool   (* proposed C15-12: name.c duplicate check must not look through aliases *)
 }.
-Definition pinned := mkCfg false false false false false false false false false.
-Definition fixed  := mkCfg true true true true true true true true true.
+Definition pinned := mkCfg false false.   (* the code as it stands in /repo *)
+Definition fixed  := mkCfg true true.     (* with the proposed repairs *)
 
 (* ---------------------------------------------------------------- types *)
 Definition T_RAW := 0.  Definition T_LINCOM := 1.  Definition T_LINTERP := 2.
@@ -163,44 +158,44 @@ Definition find_da (l : list entry) (k : name) : option entry :=
 Definition alias_tgt (e : entry) : name :=
   match e_ins e with (t, _) :: _ => t | [] => [] end.
 
-(* _GD_ResolveAlias(D, base, E); the bool is "ran out of stack" (the C
-   recursion does not terminate on a cycle that does not contain base) *)
-Fixpoint resolve (fuel : nat) (l : list entry) (base id : N) : list entry * option N * bool :=
+(* _GD_ResolveAlias(D, base, E, depth): the recursion stops at depth >= n_entries.
+   [fuel] only makes the definition structural; it is never exhausted because
+   depth grows by one per call and is cut at length l. *)
+Fixpoint resolve (fuel : nat) (depth : nat) (l : list entry) (base id : N) : list entry * option N :=
   match fuel with
-  | O => (l, None, true)
+  | O => (l, None)
   | S f =>
       match by_id l id with
-      | None => (l, None, false)
+      | None => (l, None)
       | Some e =>
           match find_nd l (alias_tgt e) with
-          | None => (upd_id l id (fun x => set_alias x None false), None, false)
+          | None => (upd_id l id (fun x => set_alias x None false), None)
           | Some t =>
               if is_alias t then
                 match e_dist t with
-                | Some d => (upd_id l id (fun x => set_alias x (Some d) true), Some d, false)
+                | Some d => (upd_id l id (fun x => set_alias x (Some d) true), Some d)
                 | None =>
-                    if e_id t =? base then
-                      (upd_id l id (fun x => set_alias x None true), None, false)
+                    if (e_id t =? base) || (Nat.leb (length l) depth) then
+                      (upd_id l id (fun x => set_alias x None true), None)
                     else
-                      let '(l', r, ov) := resolve f l base (e_id t) in
-                      (upd_id l' id (fun x => set_alias x r true), r, ov)
+                      let '(l', r) := resolve f (S depth) l base (e_id t) in
+                      (upd_id l' id (fun x => set_alias x r true), r)
                 end
-              else (upd_id l id (fun x => set_alias x (Some (e_id t)) true), Some (e_id t), false)
+              else (upd_id l id (fun x => set_alias x (Some (e_id t)) true), Some (e_id t))
           end
       end
   end.
 
-Definition update_aliases (reset : bool) (l : list entry) : list entry * bool :=
+Definition ua_step (cur : list entry) (id : N) : list entry :=
+  match by_id cur id with
+  | Some e =>
+      if is_alias e && negb (e_dir e) then fst (resolve (S (S (length cur))) 0 cur id id) else cur
+  | None => cur
+  end.
+
+Definition update_aliases (reset : bool) (l : list entry) : list entry :=
   let l0 := if reset then map (fun e => if is_alias e then set_alias e None false else e) l else l in
-  fold_left (fun (acc : list entry * bool) id =>
-               let '(cur, ov) := acc in
-               match by_id cur id with
-               | Some e =>
-                   if is_alias e && negb (e_dir e) then
-                     let '(cur', _, ov') := resolve (S (S (length cur))) cur id id in (cur', ov || ov')
-                   else acc
-               | None => acc
-               end) (map e_id l0) (l0, false).
+  fold_left ua_step (map e_id l0) l0.
 
 (* ------------------------------------------------------ list membership *)
 (* _GD_ListEntry with fragment = GD_ALL_FRAGMENTS *)
@@ -307,7 +302,6 @@ Definition E_BAD_INDEX := (-19)%Z.
 Definition E_DELETE := (-23)%Z.
 
 Definition K_NULLPARENT := 1.   (* E->e->p.parent is NULL / freed *)
-Definition K_ALIASLOOP := 2.    (* unbounded recursion in _GD_ResolveAlias *)
 
 Definition NFRAG := 2.
 
@@ -337,8 +331,7 @@ Definition bump (s : state) (k : N) : state :=
   mkS (s_ents s) (s_next s + k) (s_ref s) (s_fref s) (s_fl s) (s_aff s).
 
 Definition with_aliases (s : state) (reset : bool) (ok : Z) : state * res :=
-  let '(l, ov) := update_aliases reset (s_ents s) in
-  (set_ents s l, if ov then RCrash K_ALIASLOOP else RInt ok).
+  (set_ents s (update_aliases reset (s_ents s)), RInt ok).
 
 (* fragment scope: fragment 1 is included by fragment 0 *)
 Definition in_scope (f i : N) : bool := (f =? i) || ((f =? 1) && (i =? 0)).
@@ -364,25 +357,19 @@ Definition add_ref (s : state) (e : entry) : state :=
     end
   else s.
 
-(* the common tail of _GD_Add / parser insert / _GD_AddAlias *)
-Definition do_insert (c : cfg) (s : state) (P : option entry) (link inval setpar : bool) (e0 : entry) : state :=
-  let e := if setpar then mkE (e_name e0) (e_id e0) (e_nid e0) (e_ty e0) (e_frag e0) (e_hid e0) (e_meta e0)
-                             (match P with Some p => Some (e_id p) | None => None end)
-                             (e_kids e0) (e_ins e0) (e_scs e0) (e_dist e0) (e_dir e0) (e_val e0) (e_fl e0)
-           else e0 in
+(* the common tail of _GD_Add / parser insert / _GD_AddAlias: insert at the
+   bisection point, link into the parent's subfield array, invalidate the
+   lists of the container *)
+Definition set_par e p := mkE (e_name e) (e_id e) (e_nid e) (e_ty e) (e_frag e) (e_hid e) (e_meta e) p (e_kids e) (e_ins e) (e_scs e) (e_dist e) (e_dir e) (e_val e) (e_fl e).
+
+Definition do_insert (s : state) (P : option entry) (e0 : entry) : state :=
+  let e := set_par e0 (match P with Some p => Some (e_id p) | None => None end) in
   let u := ins_point (s_ents s) (e_name e) in
   let l1 := insert_at u e (s_ents s) in
-  let l2 := match P with
-            | Some p => if link then upd_id l1 (e_id p) (fun x => set_kids x (e_kids x ++ [e_id e])) else l1
-            | None => l1
-            end in
-  let s2 := bump (set_ents s l2) 2 in
-  if inval then
-    match P with
-    | Some p => set_ents s2 (inval_of (s_ents s2) (e_id p))
-    | None => inval_top s2
-    end
-  else s2.
+  match P with
+  | Some p => bump (set_ents s (upd_id l1 (e_id p) (fun x => set_fl (set_kids x (e_kids x ++ [e_id e])) []))) 2
+  | None => inval_top (bump (set_ents s l1) 2)
+  end.
 
 Definition new_entry (s : state) (nm : name) (ty frag : N) (hid meta : bool)
            (ins : list name) (scs : list (option name)) (v : Z) : entry :=
@@ -394,7 +381,7 @@ Definition n_ins (ty : N) : nat :=
   else if (ty =? T_BIT) || (ty =? T_PHASE) || (ty =? T_LINTERP) then 1%nat else 0%nat.
 
 (* the tail of _GD_Add once the parent and the full name are known *)
-Definition add_go (c : cfg) (s : state) (ty : N) (hid : bool) (ins : list name) (scs : list (option name)) (v : Z)
+Definition add_go (s : state) (ty : N) (hid : bool) (ins : list name) (scs : list (option name)) (v : Z)
            (P : option entry) (full sub : name) (fr : N) : state * res :=
   match find_nd (s_ents s) full with
   | Some _ => (s, RInt E_DUPLICATE)
@@ -404,22 +391,21 @@ Definition add_go (c : cfg) (s : state) (ty : N) (hid : bool) (ins : list name) 
       else
         let meta := match P with Some _ => true | None => false end in
         let e := new_entry s full ty fr hid meta ins scs v in
-        let s1 := do_insert c s P true true (fx_parent c) e in
+        let s1 := do_insert s P e in
         with_aliases (add_ref s1 e) false E_OK
   end.
 
-Definition alias_go (c : cfg) (s : state) (tgt : name) (P : option entry) (full sub : name) (fr : N) : state * res :=
+Definition alias_go (s : state) (tgt : name) (P : option entry) (full sub : name) (fr : N) : state * res :=
   if negb (valid_name sub) then (s, RInt E_BAD_CODE)
   else match find_nd (s_ents s) full with
        | Some _ => (s, RInt E_DUPLICATE)
        | None =>
-           let meta := match P with Some _ => fx_malias c | None => false end in
+           let meta := match P with Some _ => true | None => false end in
            let e := mkE full (s_next s) (s_next s + 1) T_ALIAS fr false meta None [] [(tgt, None)] [] None false 0%Z [] in
-           let s1 := do_insert c s P (fx_malias c) true (fx_malias c) e in
-           with_aliases s1 false E_OK
+           with_aliases (do_insert s P e) false E_OK
        end.
 
-Definition op_add (c : cfg) (s : state) (viaspec : bool) (parent : option name) (nm : name)
+Definition op_add (s : state) (viaspec : bool) (parent : option name) (nm : name)
            (ty frag : N) (hid : bool) (ins : list name) (scs : list (option name)) (v : Z) : state * res :=
   if viaspec then
     (* _GD_AddSpec -> _GD_ParseFieldSpec(insert = 1); CONST only *)
@@ -435,7 +421,7 @@ Definition op_add (c : cfg) (s : state) (viaspec : bool) (parent : option name) 
             | Some _ => (s, RInt E_FORMAT)
             | None =>
                 let e := new_entry s full ty (e_frag P) false true [] [] v in
-                with_aliases (do_insert c s (Some P) true (fx_spec c) true e) false E_OK
+                with_aliases (do_insert s (Some P) e) false E_OK
             end
         end
     | None =>
@@ -444,12 +430,12 @@ Definition op_add (c : cfg) (s : state) (viaspec : bool) (parent : option name) 
         | Some _ => (s, RInt E_FORMAT)
         | None =>
             let e := new_entry s nm ty frag false false [] [] v in
-            with_aliases (do_insert c s None false (fx_spec c) false e) false E_OK
+            with_aliases (do_insert s None e) false E_OK
         end
     end
   else
     (* _GD_Add *)
-    let go := add_go c s ty hid ins scs v in
+    let go := add_go s ty hid ins scs v in
     match parent with
     | Some p =>
         match find_nd (s_ents s) p with
@@ -485,9 +471,9 @@ Definition op_add (c : cfg) (s : state) (viaspec : bool) (parent : option name) 
     end.
 
 (* _GD_AddAlias *)
-Definition op_alias (c : cfg) (s : state) (parent : option name) (nm tgt : name) (frag : N) : state * res :=
+Definition op_alias (s : state) (parent : option name) (nm tgt : name) (frag : N) : state * res :=
   if NFRAG <=? frag then (s, RInt E_BAD_INDEX) else
-  let go := alias_go c s tgt in
+  let go := alias_go s tgt in
   match parent with
   | Some p =>
       match find_nd (s_ents s) p with
@@ -589,39 +575,37 @@ Fixpoint check_all (l : list entry) (deref : bool) (ids : list N) (dels : list e
       end
   end.
 
-(* clear phase for one entry *)
-Definition clear_one (deref : bool) (dels : list entry) (j : entry) : entry :=
+(* clear phase for one entry: _GD_DeReference(check = 0) resp. _GD_ClearDerived(check = 0) *)
+Definition clear_derived (d : entry) (j : entry) : entry :=
+  if is_alias j then
+    match e_dist j with
+    | Some x => if x =? e_id d then set_alias j None (e_dir j) else j
+    | None => j
+    end
+  else
+    set_ins j (map (fun p : name * option N =>
+                 match snd p with
+                 | Some x => if x =? e_id d then (fst p, None) else p
+                 | None => p end) (e_ins j)).
+
+Definition clear_one (c : cfg) (deref : bool) (dels : list entry) (j : entry) : entry :=
   fold_left (fun (j : entry) d =>
     if is_constlike d && deref then
-      set_scs j (map (fun o => match o with
-                               | Some c => if name_eqb c (e_name d) then None else Some c
-                               | None => None end) (e_scs j))
-    else if is_alias j then
-      match e_dist j with
-      | Some x => if x =? e_id d then set_alias j None (e_dir j) else j
-      | None => j
-      end
-    else
-      set_ins j (map (fun p : name * option N =>
-                   match snd p with
-                   | Some x => if x =? e_id d then (fst p, None) else p
-                   | None => p end) (e_ins j))) dels j.
+      let j1 := set_scs j (map (fun o => match o with
+                               | Some cd => if name_eqb cd (e_name d) then None else Some cd
+                               | None => None end) (e_scs j)) in
+      if fx_derefclear c then clear_derived d j1 else j1
+    else clear_derived d j) dels j.
 
-(* the metafield removal loop of del.c:415-423 *)
-Fixpoint remove_metas (fx : bool) (dels : list N) (l : list entry) : list entry :=
+(* the metafield removal loop of del.c: walk D->entry and the (sorted) doomed
+   list in step; an index is advanced only when nothing was removed *)
+Fixpoint remove_metas (dels : list N) (l : list entry) : list entry :=
   match l with
   | [] => []
   | x :: r =>
       match dels with
       | [] => l
-      | d :: ds =>
-          if e_id x =? d then
-            if fx then remove_metas fx ds r
-            else match r with
-                 | [] => []
-                 | y :: r' => y :: remove_metas fx ds r'   (* ++j skips y *)
-                 end
-          else x :: remove_metas fx dels r
+      | d :: ds => if e_id x =? d then remove_metas ds r else x :: remove_metas dels r
       end
   end.
 
@@ -670,16 +654,14 @@ Definition op_del (c : cfg) (s : state) (nm : name) (flags : N) : state * res :=
           match reference with
           | Some x => set_ref s' (Some (e_id x))
           | None =>
-              if fx_delref c then
-                match s_ref s' with
-                | Some r => if r =? e_id E then set_ref s' None else s'
-                | None => s'
-                end
-              else s'
+              match s_ref s' with
+              | Some r => if r =? e_id E then set_ref s' None else s'
+              | None => s'
+              end
           end
         else s1 in
       (* clear clients and derived fields *)
-      let l3 := map (clear_one f_deref dels) (s_ents s2) in
+      let l3 := map (clear_one c f_deref dels) (s_ents s2) in
       if e_meta E then
         match by_oid l3 (e_par E) with
         | None => (s, RCrash K_NULLPARENT)
@@ -689,7 +671,7 @@ Definition op_del (c : cfg) (s : state) (nm : name) (flags : N) : state * res :=
         end
       else
         let sorted_kids := map e_id (resort e_name kids) in
-        let l4 := remove_metas (fx_delmeta c) sorted_kids l3 in
+        let l4 := remove_metas sorted_kids l3 in
         (inval_top (set_ents s2 (remove_id l4 (e_id E))), RInt E_OK)
   end.
 
@@ -741,7 +723,13 @@ Definition op_ren (c : cfg) (s : state) (nm new : name) (flags : N) : state * re
       match pname with
       | None => (s, RCrash K_NULLPARENT)
       | Some full =>
-          match find_da l full with
+          match (if fx_rendup c then
+                   match find_nd l full with
+                   | Some Q0 => if is_alias Q0 && (match e_dist Q0 with Some d => d =? e_id E | None => false end)
+                                then Some E else Some Q0
+                   | None => None
+                   end
+                 else find_da l full) with
           | Some Q => if e_id Q =? e_id E then (s, RInt E_OK) else (s, RInt E_DUPLICATE)
           | None =>
               let rty := if is_alias E then match by_oid l (e_dist E) with Some t => e_ty t | None => e_ty E end
@@ -758,24 +746,19 @@ Definition op_ren (c : cfg) (s : state) (nm new : name) (flags : N) : state * re
               let l2 := map (update_inputs (e_meta E) rty old full flags) l1 in
               let l3 := resort e_name l2 in
               let s1 := mkS l3 (nx + 2 + nx) (s_ref s)
-                            (if fx_renref c then
-                               map (fun o => match o with Some r => if name_eqb r old then Some full else Some r | None => None end) (s_fref s)
-                             else s_fref s)
+                            (map (fun o => match o with Some r => if name_eqb r old then Some full else Some r | None => None end) (s_fref s))
                             (s_fl s) (s_aff s) in
               (* rdat->fl *)
               let s2 :=
-                if fx_rencache c then
-                  if e_meta E then inval_container s1 E
-                  else inval_top (set_ents s1 (inval_of (s_ents s1) (e_id E)))
-                else
-                  if e_meta E then set_ents s1 (inval_of (s_ents s1) (e_id E)) else inval_top s1 in
+                if e_meta E then inval_container s1 E
+                else inval_top (set_ents s1 (inval_of (s_ents s1) (e_id E))) in
               with_aliases s2 true E_OK
           end
       end
   end.
 
 (* ------------------------------------------------------------------ move *)
-Definition op_move (c : cfg) (s : state) (nm : name) (frag : N) : state * res :=
+Definition op_move (s : state) (nm : name) (frag : N) : state * res :=
   match find_nd (s_ents s) nm with
   | None => (s, RInt E_BAD_CODE)
   | Some E =>
@@ -788,13 +771,13 @@ Definition op_move (c : cfg) (s : state) (nm : name) (frag : N) : state * res :=
   end.
 
 (* ------------------------------------------------------------------ hide *)
-Definition op_hide (c : cfg) (s : state) (nm : name) (h : bool) : state * res :=
+Definition op_hide (s : state) (nm : name) (h : bool) : state * res :=
   match find_nd (s_ents s) nm with
   | None => (s, RInt E_BAD_CODE)
   | Some E =>
       if Bool.eqb (e_hid E) h then (s, RInt E_OK) else
       let s1 := set_ents s (upd_id (s_ents s) (e_id E) (fun e => set_hid e h)) in
-      ((if fx_hide c then inval_container s1 E else s1), RInt E_OK)
+      (inval_container s1 E, RInt E_OK)
   end.
 
 (* --------------------------------------------------------------- affixes *)
@@ -806,7 +789,7 @@ Definition reaffix (oldp olds px sx : name) (n : name) : name :=
   let base := suffix_strip olds (skipn (length oldp) top) in
   px ++ base ++ sx ++ sub.
 
-Definition op_affix (c : cfg) (s : state) (frag : N) (px sx : name) : state * res :=
+Definition op_affix (s : state) (frag : N) (px sx : name) : state * res :=
   if (frag =? 0) || (NFRAG <=? frag) then (s, RInt E_BAD_INDEX)
   else if negb (clean px) || negb (clean sx) || has_dot px || has_dot sx then (s, RInt E_BAD_CODE)
   else
@@ -820,7 +803,7 @@ Definition op_affix (c : cfg) (s : state) (frag : N) (px sx : name) : state * re
     let l1 := map (fun e => if e_frag e =? frag
                             then set_name e (reaffix op_ os_ px sx (e_name e)) (nx + e_id e) else e) (s_ents s) in
     let s1 := mkS (resort e_name l1) (nx + nx) (s_ref s) (s_fref s) (s_fl s) (px, sx) in
-    ((if fx_affix c then inval_all s1 else s1), RInt E_OK).
+    (inval_all s1, RInt E_OK).
 
 (* ------------------------------------------------------------ entry list *)
 Definition show_list (l : list entry) (cl : list celem) : list (option name) :=
@@ -865,16 +848,16 @@ Definition affixed (s : state) : bool :=
 Definition step (c : cfg) (s : state) (o : op) : state * res :=
   match o with
   | OList parent sel flags => op_list s parent sel flags
-  | OAffix frag px sx => op_affix c s frag px sx
+  | OAffix frag px sx => op_affix s frag px sx
   | _ =>
       if affixed s then (s, RUnmodelled) else
       match o with
-      | OAdd viaspec parent nm ty frag hid ins scs v => op_add c s viaspec parent nm ty frag hid ins scs v
-      | OAlias parent nm tgt frag => op_alias c s parent nm tgt frag
+      | OAdd viaspec parent nm ty frag hid ins scs v => op_add s viaspec parent nm ty frag hid ins scs v
+      | OAlias parent nm tgt frag => op_alias s parent nm tgt frag
       | ODel nm flags => op_del c s nm flags
       | ORen nm new flags => op_ren c s nm new flags
-      | OMove nm frag => op_move c s nm frag
-      | OHide nm h => op_hide c s nm h
+      | OMove nm frag => op_move s nm frag
+      | OHide nm h => op_hide s nm h
       | _ => (s, RUnmodelled)
       end
   end.
